@@ -165,10 +165,15 @@ def rule_yaml_validator(progs, tier, name="YAMLVAL"):
             res.bad("%s:anchor" % name, "constant yaml::validate::MAX_NESTING_DEPTH not found (fail closed)")
             continue
         named += list(long_documents(lim["v"]))
+        # the generated presentation space (same family as C14's YAMLLOAD), LF and CRLF
+        from . import yamlgen
+
+        fam, dropped = yamlgen.streams(1500 if tier == "thorough" else 150)
+        named += [("stream-%d" % seed, text) for seed, text, _docs in fam]
         rejected = {}
         try:
             for dname, d in named:
-                for doc in (variants(d) if not dname.startswith("long-") else [d]):
+                for doc in (variants(d) if not dname.startswith(("long-", "stream-")) else ([d] if dname.startswith("long-") else [d, d.replace("\n", "\r\n")])):
                     data = doc.encode("utf-8")
                     r = run(I, P, data)
                     n_ok += 1
